@@ -389,3 +389,96 @@ def _static_str(e: ast.AST, at: ast.AST) -> bool:
     if isinstance(e, ast.Subscript) and not isinstance(e.slice, ast.Slice):
         return True
     return False
+
+
+def loc_prefix(check: Check, repo: Repo) -> None:
+    rule = "LOC-PREFIX"
+    check.rule(
+        rule,
+        "Source.get_location counts line terminators *before* the offset: the line-terminator regex "
+        "is applied to the prefix body[:position] (a slice of the body whose upper bound is the "
+        "offset parameter), never to text extending past the offset - a CR LF pair straddling the "
+        "offset would otherwise be counted as one terminator behind it",
+    )
+    fn = repo.func("language.source", "Source.get_location")
+    mod = repo.mod("language.source")
+    regexes = _regex_defs(repo, mod)
+    params = [a.arg for a in fn.args.args]  # type: ignore[attr-defined]
+    pos = params[1] if len(params) > 1 else None
+    uses = [n for n in walk_body(fn) if isinstance(n, ast.Call) and isinstance(n.func, ast.Attribute)
+            and isinstance(n.func.value, ast.Name) and n.func.value.id in regexes]
+    if not uses:
+        check.ob(rule, fn, "line regex applied in get_location", False, "no application of a line regex found")
+        return
+    for u in uses:
+        arg = u.args[0] if u.args else None
+        src = arg
+        if isinstance(arg, ast.Name):
+            src = _assigned_value(fn, arg.id)
+        ok = (
+            isinstance(src, ast.Subscript) and isinstance(src.slice, ast.Slice) and src.slice.lower is None
+            and src.slice.upper is not None and unparse(src.slice.upper) == pos and unparse(src.value) in ("self.body", "body")
+        )
+        check.ob(rule, u, f"{unparse(u.func)}({unparse(arg) if arg is not None else ''})", ok,
+                 f"applied to the prefix up to `{pos}`" if ok else
+                 f"the regex is applied to `{unparse(arg) if arg is not None else '?'}`, not to the prefix body[:{pos}]")
+
+
+def loc_offset(check: Check, repo: Repo) -> None:
+    from sa.cfg import CFG as _CFG
+    from sa.guards import Constraints, FactFlow, Lin, linear
+
+    rule = "LOC-OFFSET"
+    check.rule(
+        rule,
+        "print_source_location applies the configured location offset by the documented formula, "
+        "checked on linear normal forms (assignments substituted): line_num = location.line + "
+        "offset.line - 1; the first-line column shift offset.column - 1 is added exactly when "
+        "location.line == 1 (the source's own first line); the excerpted body is shifted by the same "
+        "amount",
+    )
+    fn = repo.func("language.print_location", "print_source_location")
+    for anchor in ("line_num", "column_offset", "column_num", "body", "line_index"):
+        if _assigned_value(fn, anchor) is None:
+            raise AnalysisError(f"anchor missing: local `{anchor}` of print_source_location (renamed?)")
+    flow = FactFlow(_CFG(fn))
+    rets = [n for n in walk_body(fn) if isinstance(n, ast.Return)]
+    facts = flow.facts_at(rets[-1]) if rets else []
+    cons = Constraints(facts)
+
+    def norm(e: ast.AST) -> Lin | None:
+        l = linear(e)
+        return cons.norm(l) if l is not None else None
+
+    def same(a: Lin | None, b: Lin | None) -> bool:
+        if a is None or b is None:
+            return False
+        d = a - b
+        return d.is_const() and d.const == 0
+
+    LINE = Lin({"source_location.line": 1})
+    want_line = LINE + Lin({"source.location_offset.line": 1}, -1)
+    line_num = norm(ast.Name(id="line_num", ctx=ast.Load()))
+    check.ob(rule, fn, "line_num = location.line + offset.line - 1", same(line_num, want_line), f"normal form: {line_num}")
+    co = _assigned_value(fn, "column_offset")
+    ok = False
+    detail = "column_offset is not a conditional expression"
+    if isinstance(co, ast.IfExp) and isinstance(co.test, ast.Compare) and len(co.test.ops) == 1 and isinstance(co.test.ops[0], ast.Eq):
+        lhs, rhs = norm(co.test.left), norm(co.test.comparators[0])
+        body, orelse = norm(co.body), norm(co.orelse)
+        want_shift = Lin({"source.location_offset.column": 1}, -1)
+        t_ok = (same(lhs, LINE) and same(rhs, Lin({}, 1))) or (same(rhs, LINE) and same(lhs, Lin({}, 1)))
+        ok = t_ok and same(body, want_shift) and same(orelse, Lin({}, 0))
+        detail = f"test {lhs} == {rhs}; shift {body} else {orelse}"
+    check.ob(rule, co if co is not None else fn, "first-line column shift applied iff location.line == 1", ok, detail)
+    cn = norm(ast.Name(id="column_num", ctx=ast.Load()))
+    want_cn = Lin({"source_location.column": 1, "column_offset": 1})
+    check.ob(rule, fn, "column_num = location.column + column_offset", same(cn, want_cn), f"normal form: {cn}")
+    body = _assigned_value(fn, "body")
+    ok = isinstance(body, ast.BinOp) and isinstance(body.op, ast.Add) and unparse(body.right) == "source.body" \
+        and isinstance(body.left, ast.Call) and last_attr(body.left) == "rjust" and body.left.args \
+        and same(norm(body.left.args[0]), Lin({"source.location_offset.column": 1}, -1))
+    check.ob(rule, body if body is not None else fn, "excerpt body shifted by offset.column - 1", ok,
+             unparse(body)[:80] if body is not None else "no body assignment")
+    li = norm(ast.Name(id="line_index", ctx=ast.Load()))
+    check.ob(rule, fn, "line_index = location.line - 1", same(li, LINE + Lin({}, -1)), f"normal form: {li}")
